@@ -102,8 +102,12 @@ def run(prop, tier, replay):
             "the in-memory stream replaces the dRPC transport; envelopes still pass through the real MarshalVT/UnmarshalVT",
             "C16 quantifies over Envelope values (tables of size 0..2, indices in {-2,-1,0,1,2,MaxInt32}, unknown type names, undecodable payloads), not over raw byte strings",
         ]
+        race_pool = []
         for tag, kw in PLAN[prop][tier]:
             r, cases = tlc_cases(sc, "MCWire.tla", cfg(**kw), tag)
+            if "response" not in tag:
+                # the sample decoded on concurrent streams: the cases of each instance that deliver something first
+                race_pool += sorted(cases, key=lambda c: -len(c.get("delivered") or []))[:150]
             v.add_tlc(r, tag)
             if r.violated:
                 raise vlib.Broken("Wire.tla violates %s on %s: the model is wrong, not the code" % (r.violated, tag))
@@ -149,13 +153,13 @@ def run(prop, tier, replay):
             race_bin = vlib.go_build(sc, "./cmd/wiretable", "wiretable_race", overlay=ov, race=True)
             sample = sc.path("race_cases.ndjson")
             with open(sample, "w") as f:
-                for c in cases[:400]:
+                for c in race_pool:
                     f.write(json.dumps(c) + "\n")
             pr = vlib.run([race_bin, "-cases", sample, "-concurrent", "4"], ok_codes=None, timeout=600, env={"GORACE": "halt_on_error=0 exitcode=66"})
-            cov["concurrent_streams"] = {"streams": 4, "cases_each": min(400, len(cases)), "race_detector_exit": pr.returncode}
+            cov["concurrent_streams"] = {"streams": 4, "cases_each": len(race_pool), "race_detector_exit": pr.returncode}
             if pr.returncode == 66 or "WARNING: DATA RACE" in pr.stderr:
                 i = pr.stderr.find("WARNING: DATA RACE")
-                rf = {"kind": "race", "cases": cases[:400], "report": pr.stderr[i:i + 2500]}
+                rf = {"kind": "race", "cases": race_pool, "report": pr.stderr[i:i + 2500]}
                 where = [l.strip() for l in pr.stderr[i:].splitlines() if "/remote/" in l or "/actor/" in l][:2]
                 v.violation(rf, "data race between concurrent inbound streams (shared state without synchronisation; Go aborts the process on a concurrent map access): %s" % "; ".join(where))
             elif pr.returncode != 0:
